@@ -137,7 +137,7 @@ def unpair : V → R (V × V)
   | .list _ => .error .valueError
   | _ => .error .typeError
 
-/-- are all non-transient fields without a default present in the row? (`required_fields`) -/
+/-- are all non-transient fields without a default present in the row? (`required_fields`; a 0-column batch skips the test) -/
 def requiredOk : Fields → List (V × V) → Bool
   | .nil, _ => true
   | .cons n tr d _ rest, row =>
@@ -166,7 +166,7 @@ def deser (env : Env) : Ann → V → R V
     if isBytes v then
       match v with
       | .bytes [] => do let o ← fromRow env fs Option.none; pure (.obj n o)
-      | .ipc (.dict row) => if requiredOk fs row then do let o ← fromRow env fs (some row); pure (.obj n o) else .error .valueError
+      | .ipc (.dict row) => if row.isEmpty || requiredOk fs row then do let o ← fromRow env fs (some row); pure (.obj n o) else .error .valueError
       | _ => .error .ipcError
     else
       match v with
@@ -176,7 +176,7 @@ def deser (env : Env) : Ann → V → R V
     if isBytes v then
       match v with
       | .bytes [] => do let o ← fromRow env fs Option.none; pure (.obj n o)
-      | .ipc (.dict row) => if requiredOk fs row then do let o ← fromRow env fs (some row); pure (.obj n o) else .error .valueError
+      | .ipc (.dict row) => if row.isEmpty || requiredOk fs row then do let o ← fromRow env fs (some row); pure (.obj n o) else .error .valueError
       | _ => .error .ipcError
     else
       match v with
@@ -229,7 +229,7 @@ end
 def fromBytes (env : Env) (n : List Char) (fs : Fields) (data : V) : R V :=
   match data with
   | .bytes [] => do let o ← fromRow env fs Option.none; pure (.obj n o)
-  | .ipc (.dict row) => if requiredOk fs row then do let o ← fromRow env fs (some row); pure (.obj n o) else .error .valueError
+  | .ipc (.dict row) => if row.isEmpty || requiredOk fs row then do let o ← fromRow env fs (some row); pure (.obj n o) else .error .valueError
   | _ => .error .ipcError
 
 /-- field-level round trip: converted, stored in a typed Arrow column, read back with `as_py()`, converted back -/
@@ -257,7 +257,7 @@ def inhabits (env : Env) : Ann → V → Bool
   | .scalar .float, .float _ => true
   | .scalar .bool, .bool _ => true
   | .intW w, .int i => w.fits i
-  | .float32, .float b => env.round32 b == b
+  | .float32, .float _ => true
   | .enum ms, .enum n => ms.any (fun m => m.1 == n)
   | .opt _, .none => true
   | .opt a, v => inhabits env a v
@@ -279,36 +279,39 @@ def inhabitsF (env : Env) : Fields → List (List Char × V) → Bool
 end
 
 mutual
-/-- what a round trip is specified to return: the same value, transient fields reset to their defaults
-(a set whose elements become equal that way collapses, as in Python) -/
-def norm : Ann → V → V
+/-- what a round trip is specified to return: the same value, transient fields reset to their defaults, a float32 field
+rounded to binary32 (DESIGN §7.3: rounding to the declared width is not a change); a set whose elements become equal
+that way collapses, as in Python -/
+def norm (env : Env) : Ann → V → V
   | _, .none => .none
-  | .opt a, v => norm a v
-  | .list a, .list xs => .list (xs.map (norm a))
-  | .set a, .set xs => .set (dedup (xs.map (norm a)))
-  | .map k v, .dict kvs => .dict (dictOfPairs (kvs.map (fun p => (norm k p.1, norm v p.2))))
-  | .dc _ fs, .obj n' ofs => .obj n' (normF fs ofs)
-  | .dcBin _ fs, .obj n' ofs => .obj n' (normF fs ofs)
+  | .opt a, v => norm env a v
+  | .float32, .float b => .float (env.round32 b)
+  | .list a, .list xs => .list (xs.map (norm env a))
+  | .set a, .set xs => .set (dedup (xs.map (norm env a)))
+  | .map k v, .dict kvs => .dict (dictOfPairs (kvs.map (fun p => (norm env k p.1, norm env v p.2))))
+  | .dc _ fs, .obj n' ofs => .obj n' (normF env fs ofs)
+  | .dcBin _ fs, .obj n' ofs => .obj n' (normF env fs ofs)
   | _, v => v
-def normF : Fields → List (List Char × V) → List (List Char × V)
+def normF (env : Env) : Fields → List (List Char × V) → List (List Char × V)
   | .nil, _ => []
   | .cons n tr d a rest, ofs =>
-    (n, if tr then d.getD .none else norm a ((fieldGet ofs n).getD .none)) :: normF rest ofs
+    (n, if tr then d.getD .none else norm env a ((fieldGet ofs n).getD .none)) :: normF env rest ofs
 end
 
 mutual
-/-- no transient field anywhere below -/
-def noTransient : Ann → Bool
-  | .opt a => noTransient a
-  | .list a => noTransient a
-  | .set a => noTransient a
-  | .map k v => noTransient k && noTransient v
-  | .dc _ fs => noTransientF fs
-  | .dcBin _ fs => noTransientF fs
+/-- no transient field and no float32 field anywhere below: the round trip is then the identity -/
+def exact : Ann → Bool
+  | .float32 => false
+  | .opt a => exact a
+  | .list a => exact a
+  | .set a => exact a
+  | .map k v => exact k && exact v
+  | .dc _ fs => exactF fs
+  | .dcBin _ fs => exactF fs
   | _ => true
-def noTransientF : Fields → Bool
+def exactF : Fields → Bool
   | .nil => true
-  | .cons _ tr _ a rest => !tr && noTransient a && noTransientF rest
+  | .cons _ tr _ a rest => !tr && exact a && exactF rest
 end
 
 def fieldNames : Fields → List (List Char)
